@@ -143,8 +143,8 @@ PROPS = {
     "C17": {"level": "model_checking", "models": ["MC_Pool"], "families": ["pool"]},
     "C19": {"level": "model_checking", "models": ["MC_Math", "MC_Stable"], "families": ["pool"]},
     "C05": {"level": "model_checking", "models": ["MC_FarmLife"], "families": ["farm", "pool"]},
-    "C06": {"level": "model_checking", "models": ["MC_Farm", "MC_FarmLife"], "families": ["farm"], "proofs": ["proofs/FarmLemmas.tla"]},
-    "C07": {"level": "model_checking", "models": ["MC_Farm"], "families": ["farm"], "proofs": ["proofs/FarmLemmas.tla"]},
+    "C06": {"level": "model_checking", "models": ["MC_Farm", "MC_FarmLife"], "families": ["farm", "fault"], "proofs": ["proofs/FarmLemmas.tla"]},
+    "C07": {"level": "model_checking", "models": ["MC_Farm"], "families": ["farm", "fault"], "proofs": ["proofs/FarmLemmas.tla"]},
     "C08": {"level": "model_checking", "models": ["MC_FarmLife"], "families": ["farm", "pool"]},
     "C09": {"level": "model_checking", "models": ["MC_FarmLife", "MC_Math"], "families": ["farm"], "proofs": ["proofs/FarmLemmas.tla"]},
     "C10": {"level": "model_checking", "models": ["MC_Farm"], "families": ["farm", "pool"]},
